@@ -26,6 +26,8 @@ MUTANTS = [
     ("M_TimerFlushesAny", dict(core.SPLIT, MaxId="22")),
     # a selective join-like action: an event its selector does not match must still go through it while it holds a run
     ("M_BusyTakesAll", {"Classes": '{"H", "N", "C"}', "Strs": '{"a"}', "_cfg": "Pipeline_props.cfg"}),
+    # refused by the input's own PassEvent (the file input after a restart): the pooled event goes back exactly once
+    ("M_RefusedBackOnce", {"Classes": '{"P", "X"}', "Strs": '{"a"}', "Capacity": "2"}),
 ]
 
 
@@ -74,7 +76,7 @@ def run(ctx, pid=PID, families=(("commit", 120, 600), ("retry", 60, 300)), mutan
         run_no += 1
     for ov in ({}, {"BatchCount": "2"}, {"HasDQ": "TRUE", "MaxFails": "2", "Classes": '{"P"}'},
                {"Classes": '{"P", "H", "C"}', "Strs": '{"a"}', "MaxId": "4"}, {"Classes": '{"N", "H", "C"}', "Strs": '{"a"}', "MaxId": "4"},
-               {"Capacity": "1", "Classes": '{"P", "D", "R"}'}, dict(core.SPLIT), dict(core.SPLIT, BatchCount="1", Classes='{"P", "S", "H"}')):
+               {"Capacity": "1", "Classes": '{"P", "D", "R", "X"}'}, dict(core.SPLIT), dict(core.SPLIT, BatchCount="1", Classes='{"P", "S", "H"}')):
         g = []
         for lines, steps in core.simulated_schedules(ctx, 60 if thorough else 12, ov):
             scen.append(core.scripted(run_no, "sim-%d" % run_no, lines, steps, core.consts_of(ov)))
